@@ -102,7 +102,7 @@ def tailR (d : Nat) : Block → Stream
   | .leaf _ => []
   | .grp bs => bs.render (d + 1) ++ [mkT d .grpE]
   | .env ty bs => bs.render (d + 1) ++ [mkT d (.end_ .env ty)]
-  | .list ty nsp is => spaces (d + 1) nsp ++ (is.render (d + 1) ++ [mkT d (.end_ .list ty)])
+  | .list ty nsp is => blanks (d + 1) nsp ++ (is.render (d + 1) ++ [mkT d (.end_ .list ty)])
   | .table ty c cs rs =>
     mkT (d + 2) .row :: mkT (d + 2) .cell ::
       (c.render (d + 2) ++ (cs.render (d + 2) ++ (rs.render (d + 2) ++ [mkT d (.end_ .array ty)])))
@@ -157,15 +157,15 @@ theorem stopsItem_items (d : Nat) (is : Items) (tl : Stream) (h : StopsItem d tl
     obtain ⟨g', rfl⟩ : ∃ g', g = g' + 1 := ⟨g - 1, by omega⟩
     simp [Items.render, loop, classify, mkT, Node.kind, Node.tok, Kind.isElement, EndClass.isInstance]
 
-theorem skipWs_spaces (d n : Nat) (X : Stream) : skipWs (spaces d n ++ X) = skipWs X := by
+theorem skipWs_spaces (d : Nat) (n : List Bool) (X : Stream) : skipWs (blanks d n ++ X) = skipWs X := by
   induction n with
-  | zero => simp [spaces]
-  | succ n ih => simpa [spaces, List.replicate_succ, skipWs, isWs, mkT] using ih
+  | nil => simp [blanks]
+  | cons p ps ih => cases p <;> simpa [blanks, skipWs, isWs, mkT] using ih
 
-theorem listSkip_spaces (d n : Nat) (X : Stream) : listSkip (spaces d n ++ X) = listSkip X := by
+theorem listSkip_spaces (d : Nat) (n : List Bool) (X : Stream) : listSkip (blanks d n ++ X) = listSkip X := by
   induction n with
-  | zero => simp [spaces]
-  | succ n ih => simpa [spaces, List.replicate_succ, listSkip, isWs, mkT] using ih
+  | nil => simp [blanks]
+  | cons p ps ih => cases p <;> simpa [blanks, listSkip, isWs, mkT] using ih
 
 theorem skipWs_items (d : Nat) (is : Items) (tl : Stream) (h : skipWs tl = tl) :
     skipWs (is.render d ++ tl) = is.render d ++ tl := by
@@ -372,9 +372,9 @@ theorem items_ok : ∀ is : Items, IProp is
     obtain ⟨e, he⟩ := stopsItem_items d rest tl hst
     have hbody := blocks_ok body d (.until_ .item) ⟨d, .item term⟩ 2 (rest.render d ++ tl) _ hw.1.2
       (Nat.le_refl _) (by intro h; cases h) (fun g hg => he g term hg) f' (by omega)
-    have hskip : skipWs (spaces d nsp ++ (body.render d ++ (rest.render d ++ tl))) = body.render d ++ (rest.render d ++ tl) := by
+    have hskip : skipWs (blanks d nsp ++ (body.render d ++ (rest.render d ++ tl))) = body.render d ++ (rest.render d ++ tl) := by
       rw [skipWs_spaces, skipWs_body d body _ hw.1.1 hw.1.2 (skipWs_items d rest tl hws)]
-    have hdig : digestNode (f' + 1) (mkT d (.item term)) (spaces d nsp ++ (body.render d ++ (rest.render d ++ tl)))
+    have hdig : digestNode (f' + 1) (mkT d (.item term)) (blanks d nsp ++ (body.render d ++ (rest.render d ++ tl)))
         = some (.mk ⟨d, .item term⟩ (body.nodes d), rest.render d ++ tl) := by
       simp only [mkT, digestNode]
       rw [hskip, hbody]; simp [prependRes]
